@@ -118,6 +118,9 @@ pub struct Globals {
     pub chans: BTreeMap<u64, Chan>,
     /// the reference evicted something the implementation is known to keep (see known findings)
     pub sticky: Option<String>,
+    /// this candidate follows the implementation's known divergence (S12) instead of the property
+    pub keep_sticky: bool,
+    pub sticky_kept: bool,
     /// task / chain currently running (owner of the requests it issues)
     pub cur_owner: u64,
     pub aborted_tasks: BTreeSet<u64>,
@@ -138,6 +141,7 @@ pub struct Globals {
     /// probes
     pub evictions: u64,
     pub zombies_reaped: u64,
+    pub immediate_reaps: u64,
 }
 
 impl Globals {
@@ -1213,6 +1217,13 @@ impl CmdSt {
                 let mut left = CmdSt::new(a, init, g);
                 left.inline_of = Some(uid);
                 g.inline_parent.insert(left.uid, uid);
+                // `a.and(b)` extends `a` itself: a handle taken on `a` beforehand aborts the whole
+                let luid = left.uid;
+                for o in g.handle_owner.values_mut() {
+                    if *o == luid {
+                        *o = uid;
+                    }
+                }
                 Node::Par(vec![left, CmdSt::new(b, init, g)])
             }
             Cmd::All(xs) => Node::Par(xs.iter().map(|x| CmdSt::new(x, init, g)).collect()),
@@ -1327,32 +1338,9 @@ impl CmdSt {
             return true;
         }
         if g.aborted_cmds.contains(&self.uid) {
-            if g.cmds_aborted_this_settle.contains(&self.uid) && self.polled {
-                // aborted from inside a task while it was running: tasks of this command that are
-                // runnable right now may or may not get one more poll, depending on queue order
-                let mut fired = false;
-                self.visit_waits(g, &mut |w| fired |= wait_fired(g, &w));
-                if fired {
-                    g.ambiguous = Some("command aborted by a task while other tasks of it were runnable".into());
-                }
-            }
-            let mut live = false;
-            self.visit_waits(g, &mut |w| live |= wait_live(g, &w));
-            if !live {
-                let mut owners = vec![];
-                self.owner_uids(&mut owners);
-                live = owners.iter().any(|o| g.has_ghosts(*o));
-            }
-            let forced = !self.polled || always_polled || !live;
-            if forced || g.reap.contains(&self.uid) {
-                self.release(g);
-                g.zombies_reaped += 1;
-                g.progress = true;
-                return true;
-            }
-            g.optional_zombies.insert(self.uid);
-            return false;
+            return self.run_aborted(g, always_polled);
         }
+        let outs_before = outs.len();
         self.polled = true;
         let my_uid = self.uid;
         let inline_of = self.inline_of;
@@ -1425,6 +1413,12 @@ impl CmdSt {
                             g.ambiguous = Some("chain permanently stuck while holding a live stream".into());
                         }
                         if up.polls_flatten_unordered(true) {
+                            if g.keep_sticky {
+                                // the known divergence, followed faithfully: the chain keeps a clone
+                                // of its own waker and stays for as long as its command does
+                                g.sticky_kept = true;
+                                return false;
+                            }
                             g.sticky = Some("then_stream".into());
                         }
                         let mut keys = vec![];
@@ -1564,8 +1558,47 @@ impl CmdSt {
         };
         if fin {
             self.finished = true;
+            return true;
         }
-        fin
+        if outs.len() > outs_before && g.aborted_cmds.contains(&self.uid) {
+            // aborted by a task during this very poll, which also produced output: whoever hosts
+            // the command (a `then`, `all`, a mapping, the core) takes the output and polls it
+            // again at once, and that poll notices the abort
+            g.immediate_reaps += 1;
+            return self.run_aborted(g, true);
+        }
+        false
+    }
+
+    /// the command is polled while its abort flag is set; `certain`: the poll certainly happens now
+    fn run_aborted(&mut self, g: &mut Globals, certain: bool) -> bool {
+        if g.cmds_aborted_this_settle.contains(&self.uid) && self.polled {
+            // aborted from inside a task while it was running: tasks of this command that are
+            // runnable right now may or may not get one more poll, depending on queue order
+            let mut fired = false;
+            self.visit_waits(g, &mut |w| fired |= wait_fired(g, &w));
+            if fired {
+                g.ambiguous = Some("command aborted by a task while other tasks of it were runnable".into());
+            }
+        }
+        let mut live = false;
+        self.visit_waits(g, &mut |w| live |= wait_live(g, &w));
+        if !live {
+            let mut owners = vec![];
+            self.owner_uids(&mut owners);
+            live = owners.iter().any(|o| g.has_ghosts(*o));
+        }
+        // (a stuck chain kept by the implementation has nothing live and is still there: only a
+        // poll discards it)
+        let forced = !self.polled || certain || (!live && !g.keep_sticky);
+        if forced || g.reap.contains(&self.uid) {
+            self.release(g);
+            g.zombies_reaped += 1;
+            g.progress = true;
+            return true;
+        }
+        g.optional_zombies.insert(self.uid);
+        false
     }
 }
 
@@ -1631,6 +1664,8 @@ impl Model {
                 inline_parent: BTreeMap::new(),
                 chans: BTreeMap::new(),
                 sticky: None,
+                keep_sticky: false,
+                sticky_kept: false,
                 cur_owner: 0,
                 aborted_tasks: BTreeSet::new(),
                 aborted_this_settle: BTreeSet::new(),
@@ -1647,6 +1682,7 @@ impl Model {
                 legacy_drops: false,
                 evictions: 0,
                 zombies_reaped: 0,
+                immediate_reaps: 0,
             },
             roots: vec![],
             runs: 0,
